@@ -123,61 +123,32 @@ def handle : Handler := fun op args impl =>
         | _ => "na"
       let verdict :=
         if impl.startsWith "panic" || impl.startsWith "exit:" then "fail:worker-panic" else
-        match refs with
-        | [ref] =>
-          let a := c.aligner ref.2 seq
-          let self (b : Aligner) : Int := (ref.2.map fun x => subOf b x x).foldl (· + ·) 0
-          -- both strands: the hypothesis `hrev` of `phase_nt_verbatim_trimmed_at_orf_start_partial`
-          let okRev := !c.reverse ||
-            (let t := revcompIgnoringError seq
-             let b := c.aligner ref.2 t
-             DyadicScheme b ref.2.length t.length && domB b ref.2 t && decide (self b ≤ self a))
-          if DyadicScheme a ref.2.length seq.length && premise a ref.2 seq && okRev then
-            let off := (occurrences ref.2 seq).getD 0 0
-            let nt := if c.cutend then ref.2 else seq.drop off
+        -- the hypotheses of `Props.C16.phase_nt_verbatim_multi_partial`, decided on the inputs: the (reference, strand)
+        -- pairs in the order `alignAgainstRefsNT` tries them; exactly one pair meets the premise of the verbatim clause
+        -- on its strand; every other pair is diagonally dominant, a pair tried earlier has no gap character on its strand
+        -- and either a smaller self-score or an equal one without any verbatim occurrence, a pair tried later has no
+        -- greater self-score.  Then the winning hit is that occurrence, aligned without gaps: trimmed at its start, and the
+        -- codon sequence - in frame with the trimmed nucleotides - is the trimmed sequence itself.
+        let strands : List Seq := if c.reverse then [seq, revcompIgnoringError seq] else [seq]
+        let pairs : List (Seq × Seq) := refs.flatMap fun r => strands.map fun t => (r.2, t)
+        let selfOf (r t : Seq) : Int := let b := c.aligner r t; (r.map fun x => subOf b x x).foldl (· + ·) 0
+        let good (r t : Seq) : Bool := let b := c.aligner r t; DyadicScheme b r.length t.length && premise b r t
+        let bounded (r t : Seq) : Bool := let b := c.aligner r t; DyadicScheme b r.length t.length && domB b r t
+        match (pairs.zipIdx.filter fun (p, _) => good p.1 p.2) with
+        | [((r, t), k)] =>
+          let others := pairs.zipIdx.filter fun (_, j) => j != k
+          if others.all (fun ((r', t'), j) => bounded r' t' &&
+               (if j < k then !t'.contains GAP &&
+                    (decide (selfOf r' t' < selfOf r t) ||
+                     (decide (selfOf r' t' ≤ selfOf r t) && (occurrences r' t').isEmpty))
+                else decide (selfOf r' t' ≤ selfOf r t))) then
+            let off := (occurrences r t).getD 0 0
+            let nt := if c.cutend then r else t.drop off
             if !impl.startsWith s!"ok v={v} {off}|0|{encSeq nt}|" then "fail:verbatim-orf-not-trimmed-at-its-start"
             else verdictOf (impl.startsWith s!"ok v={v} {off}|0|{encSeq nt}|{encSeq nt}|")
                    "verbatim-orf-codon-sequence-out-of-frame"
-          else if c.reverse then
-            -- the occurrence may be on the reverse strand: the general rule below decides
-            let strands : List Seq := [seq, revcompIgnoringError seq]
-            let selfOf (t : Seq) : Int := let b := c.aligner ref.2 t; (ref.2.map fun x => subOf b x x).foldl (· + ·) 0
-            let t := revcompIgnoringError seq
-            let b := c.aligner ref.2 t
-            let fwdBounded := (let a0 := c.aligner ref.2 seq; DyadicScheme a0 ref.2.length seq.length && domB a0 ref.2 seq)
-            if DyadicScheme b ref.2.length t.length && premise b ref.2 t && fwdBounded && decide (selfOf seq < selfOf t)
-               && strands.length == 2 then
-              let off := (occurrences ref.2 t).getD 0 0
-              let nt := if c.cutend then ref.2 else t.drop off
-              if !impl.startsWith s!"ok v={v} {off}|0|{encSeq nt}|" then "fail:verbatim-orf-not-trimmed-at-its-start"
-              else verdictOf (impl.startsWith s!"ok v={v} {off}|0|{encSeq nt}|{encSeq nt}|")
-                     "verbatim-orf-codon-sequence-out-of-frame"
-            else removedOk
           else removedOk
-        | _ =>
-          -- several references (or a verbatim occurrence on the other strand): the hits are tried reference by
-          -- reference, forward strand first, and a later hit replaces the best one only with a strictly higher score.
-          -- When one (reference, strand) pair meets the premise of the verbatim clause and no other pair can reach its
-          -- score (diagonal dominance bounds every alignment of a pair by the reference's score against itself), the
-          -- winning hit is that verbatim occurrence, aligned without gaps: the sequence is trimmed at its start and the
-          -- codon sequence - in frame with the trimmed nucleotides - is the trimmed sequence itself.
-          let strands : List Seq := if c.reverse then [seq, revcompIgnoringError seq] else [seq]
-          let pairs : List (Seq × Seq) := refs.flatMap fun r => strands.map fun t => (r.2, t)
-          let selfOf (r t : Seq) : Int := let b := c.aligner r t; (r.map fun x => subOf b x x).foldl (· + ·) 0
-          let good (r t : Seq) : Bool := let b := c.aligner r t; DyadicScheme b r.length t.length && premise b r t
-          let bounded (r t : Seq) : Bool := let b := c.aligner r t; DyadicScheme b r.length t.length && domB b r t
-          match (pairs.zipIdx.filter fun (p, _) => good p.1 p.2) with
-          | [((r, t), k)] =>
-            let others := pairs.zipIdx.filter fun (_, j) => j != k
-            if others.all (fun ((r', t'), j) => bounded r' t' &&
-                 (if j < k then decide (selfOf r' t' < selfOf r t) else decide (selfOf r' t' ≤ selfOf r t))) then
-              let off := (occurrences r t).getD 0 0
-              let nt := if c.cutend then r else t.drop off
-              if !impl.startsWith s!"ok v={v} {off}|0|{encSeq nt}|" then "fail:verbatim-orf-not-trimmed-at-its-start"
-              else verdictOf (impl.startsWith s!"ok v={v} {off}|0|{encSeq nt}|{encSeq nt}|")
-                     "verbatim-orf-codon-sequence-out-of-frame"
-            else removedOk
-          | _ => removedOk
+        | _ => removedOk
       some ⟨model, verdict⟩
   | _, _ => none
 
